@@ -151,6 +151,17 @@ def check(case):
         if [mol_view(m) for m in part] != got[sl]:
             raise PropertyViolation("slicing", "%s: System[%r] gives %r, expected %r"
                                     % (label, sl, [m.name for m in part], [g[0] for g in got[sl]]))
+    # loading a topology again finds no unclaimed run: refused, and the system is unchanged
+    try:
+        with env.quiet():
+            syst.add_ftop(itps[order[0]])
+    except Exception:     # noqa: BLE001
+        pass
+    else:
+        raise PropertyViolation("reload-refused", "%s: loading %s a second time (no unclaimed run left) did not raise"
+                                % (label, order[0]))
+    if len(syst) != n or [mol_view(m) for m in syst] != got:
+        raise PropertyViolation("reload-refused", "%s: a refused topology changed the system" % label)
     # non-trivial: >=2 loaded species interleaved, a multi-residue instance next to itself
     names = [sp for sp in sequence]
     loaded_seq = [sp for sp in names if sp in loaded]
